@@ -148,6 +148,12 @@ func ruleCacheMiddleware(c *Ctx, a *serverAnchors, want map[string]bool) {
 		labels := []*Term{}
 		firstNext, deferAt, getAt := -1, -1, -1
 		var cacheableEv, hfpEv *Event
+		type deferSite struct {
+			at    int
+			fn    *ssa.Function
+			depth int
+		}
+		var defers []deferSite
 		for i, e := range pr.Events {
 			switch {
 			case e.Kind == "call" && e.Callee == ca.Get:
@@ -157,10 +163,12 @@ func ruleCacheMiddleware(c *Ctx, a *serverAnchors, want map[string]bool) {
 				if firstNext < 0 {
 					firstNext = i
 				}
-			case e.Kind == "defer" && e.Depth == 0:
-				// the discharging defer: the deferred function (transitively, within package server) calls HitForPass
-				if deferAt < 0 && e.Callee != nil && callsFunc(e.Callee, a.hitForPass, 2) {
-					deferAt = i
+			case e.Kind == "defer" && (e.Depth == 0 || firstNext < 0):
+				// the discharging defer: the deferred function (transitively, within package server) calls HitForPass.
+				// It protects the downstream call when it is registered in the handler itself or in the
+				// (inlined) function that makes that call.
+				if e.Callee != nil && callsFunc(e.Callee, a.hitForPass, 2) {
+					defers = append(defers, deferSite{i, e.Fn, e.Depth})
 				}
 			case e.Kind == "call" && e.Callee == a.setStat:
 				labels = append(labels, e.Args[1])
@@ -170,6 +178,11 @@ func ruleCacheMiddleware(c *Ctx, a *serverAnchors, want map[string]bool) {
 			case e.Kind == "call" && e.Callee == a.hitForPass:
 				completions++
 				hfpEv = e
+			}
+		}
+		for _, d := range defers {
+			if deferAt < 0 && (d.depth == 0 || (firstNext >= 0 && pr.Events[firstNext].Fn == d.fn)) {
+				deferAt = d.at
 			}
 		}
 		if *passCond {
@@ -201,6 +214,15 @@ func ruleCacheMiddleware(c *Ctx, a *serverAnchors, want map[string]bool) {
 		// the entry is the dispatcher's entry for this request's key
 		if !(HC.Op == "call" && HC.Fn == a.getHTTPCache && len(HC.Args) == 2 && HC.Args[1].Op == "call" && HC.Args[1].Fn == a.getKey) {
 			report("entry-of-request-key", "the entry looked up is "+prettyTerm(HC)+", not GetHTTPCache(getKey(request)) on "+where)
+		}
+		// the dispatcher is resolved for this request from the server's current cache name
+		if HC.Op == "call" && len(HC.Args) == 2 {
+			d := HC.Args[0]
+			okBind := d.Op == "call" && d.Fn != nil && d.Fn.Name() == "GetDispatcher" && len(d.Args) == 1 &&
+				d.Args[0].Op == "call" && d.Args[0].Fn != nil && d.Args[0].Fn.Name() == "GetCache"
+			if !okBind {
+				report("cache-binding", "the cache used is "+prettyTerm(d)+", not the dispatcher looked up for this request under the server's current cache name (a cache re-bound, removed or re-created by a reload is not picked up) on "+where)
+			}
 		}
 		isHitK, isHit := pr.Facts.Decide(eqTerm(ST, statusConst(ca.stHit)))
 		isFetK, isFet := pr.Facts.Decide(eqTerm(ST, statusConst(ca.stFetching)))
@@ -304,7 +326,7 @@ func ruleCacheMiddleware(c *Ctx, a *serverAnchors, want map[string]bool) {
 		c.undecided("cache-middleware", name, pos, fmt.Sprintf("expected paths not found %v: handler idiom not recognised", seen))
 		return
 	}
-	for _, r := range []string{"pass-methods", "forward-once", "label", "completion-only-by-fetcher", "entry-of-request-key", "hit-does-not-forward",
+	for _, r := range []string{"pass-methods", "forward-once", "label", "completion-only-by-fetcher", "entry-of-request-key", "cache-binding", "hit-does-not-forward",
 		"hit-serves-stored", "hit-age", "ticket-discharge", "hit-for-pass-period", "store-gate"} {
 		if want != nil && !want[r] {
 			continue
@@ -609,6 +631,18 @@ func ruleMaxAge(c *Ctx, a *serverAnchors, want map[string]bool) {
 			}
 		}
 		deniedSetCookie, deniedEmpty, deniedRegex := false, false, false
+		// any way of writing "no Set-Cookie value present" (== 0, !(0 < len), < 1, …)
+		for _, l := range pr.Conds {
+			l.Atom.walk(func(x *Term) bool {
+				if x.Op == "len" && len(x.Args) == 1 && isHeaderCall(x.Args[0], "Values", "Set-Cookie") {
+					if k, isZero := pr.Facts.Decide(eqTerm(x, intTerm(0))); k && isZero {
+						deniedSetCookie = true
+						setCookiePresence = "values"
+					}
+				}
+				return true
+			})
+		}
 		var sMaxMiss, sMaxHit, maxHit bool
 		var ageNonEmpty, agePositive *bool
 		for _, l := range pr.Conds {
@@ -1230,6 +1264,12 @@ func callsFunc(f, target *ssa.Function, depth int) bool {
 			callee := ci.Common().StaticCallee()
 			if callee == target {
 				return true
+			}
+			if cc := ci.Common(); cc.IsInvoke() && cc.Method.Name() == target.Name() && target.Signature.Recv() != nil {
+				// an interface call the target's receiver type can satisfy
+				if it, ok := cc.Value.Type().Underlying().(*types.Interface); ok && types.Implements(target.Signature.Recv().Type(), it) {
+					return true
+				}
 			}
 			if depth > 0 && callee != nil && isPikeFunc(callee) && callsFunc(callee, target, depth-1) {
 				return true
